@@ -212,5 +212,10 @@ CLAIMS['C31'] = {
   'note': _TB + 'Unclipped screen (640x400 stand-in, no VIEW/WINDOW), solid pattern; the pixel buffer is a recording stand-in behind the viewport interface. GET/PUT round trips, XOR twice and the sprite builders are not under contract. Loop-invariant obligations are auxiliary: if a changed algorithm no longer satisfies the invariant the check reports undecided (exit 2) and relies on the BOUNDED native cross-check (300/5000 sampled endpoint pairs, never counted as proved) to show an actual violation.',
 }
 
+CLAIMS['C08'] = {
+  'text': 'Field layer only - the digits themselves are NOT decided (they are decimal conversion, C07, taken by contract as an arbitrary digit string). Proof on the real StringField, NumberField.__init__/format and Formatter._print_using: ! emits the first character (space for an empty string), & the whole string, a backslash field of width w exactly w characters (cut or space-padded), contents symbolic; parsing a number field consumes exactly its specification and yields the declared digit positions, decimals and comma flag (15 specifications covering every token kind); format() asks for fixed or scientific digits with the declared parameters, emits exactly len(field) characters when sign + $ + digits + trailing sign fit, otherwise % followed by the full representation, with the sign placed as the field says, $ directly before the digits, * or space fill on the left, a leading zero before a bare point when there is room, and Illegal function call beyond 24 digit positions - for an arbitrary (symbolic) digit string and sign; _print_using emits values in order with literals and restarts the format string.',
+  'note': _TB + 'The clause "the digits shown equal the value rounded to the field\'s decimal places" is NOT covered (Float.to_str_fixed/to_str_scientific/to_decimal are replaced by an arbitrary digit string). Field specifications, digit-string lengths and string lengths are case parameters.',
+}
+
 NOT_APPLICABLE = {
 }
